@@ -24,7 +24,7 @@ fn main() {
     fs::create_dir_all(out).unwrap();
     let mut failed = 0;
     let mut report = Vec::new();
-    let mut g = tr::Global { externs: vec![], enums: Default::default(), packed: vec![], structs: Default::default(), fns: Default::default(), consts: Default::default(), ns: String::new() };
+    let mut g = tr::Global { externs: vec![], enums: Default::default(), packed: vec![], structs: Default::default(), fns: Default::default(), consts: Default::default(), ns: String::new(), opaques: vec![], getters: Default::default(), derefs: Default::default() };
     for unit in targets::units() {
         match tr::translate_unit(src, &unit, &mut g) {
             Ok(text) => {
